@@ -51,22 +51,34 @@ def schemeBasic (auth : Bytes) : Bool := (auth.take 6).map lower == "basic ".toL
 def pairMatches (cred : Bytes) (up : Bytes × Bytes) : Bool :=
   !up.1.contains ':' && cred == up.1 ++ ':' :: up.2
 
-/-- the header is exactly `Basic ` followed by base64 text that decodes to a configured pair -/
+/-- the credential `cred` is accepted by the configuration: with a validator, it has the form `u:p`
+    and the validator accepts that pair (`verdict`); otherwise it is `u:p` for a configured pair.
+    `user` is the user name it names. -/
+def accepts (r : Req) (cred user : Bytes) : Bool :=
+  match r.validator with
+  | some verdict => verdict && cred.contains ':' && user == cred.takeWhile (· != ':')
+  | none => r.users.any fun up => pairMatches cred up && user == up.1
+
+/-- the header is exactly `Basic ` followed by base64 text that decodes to an accepted credential -/
 def wellFormedValid (r : Req) : Bool :=
   prefixBasic.isPrefixOf r.auth &&
   match r.dec with
-  | some cred => r.users.any (pairMatches cred)
+  | some cred =>
+    (match r.validator with
+     | some verdict => verdict && cred.contains ':'
+     | none => r.users.any (pairMatches cred))
   | none => false
 
-/-- * the handler runs only for a Basic header whose payload decodes to a configured user/password
-      pair, and it sees that user;
+/-- * the handler runs only for a Basic header whose payload decodes to a credential the configuration
+      accepts (a configured user/password pair, or a pair the configured validator accepts), and it
+      sees that user;
     * otherwise the answer is 401 with a `WWW-Authenticate` header;
-    * a well-formed header with a configured pair is never refused. -/
+    * a well-formed header with an accepted credential is never refused. -/
 def specOK (r : Req) (o : Obs) : Bool :=
   if o.ran then
     schemeBasic r.auth &&
     (match r.dec with
-     | some cred => r.users.any fun up => pairMatches cred up && o.user == up.1
+     | some cred => accepts r cred o.user
      | none => false)
   else
     o.status == 401 && o.www.isSome && !wellFormedValid r
